@@ -70,7 +70,7 @@ def run(tier, seed, res):
     # few processes: start-up (MPI_Init + parsec_init under ASan) costs ~3 CPU-seconds each
     for t, name, n in ((0, "bc", 4 if quick else 24), (1, "kview", 2 if quick else 12), (2, "sym", 1 if quick else 2), (6, "vector", 1 if quick else 2)):
         for i in range(n):
-            jobs.append(dict(cmd=[b, "exh", str(t), str(L), str(i), str(n)], env=_env(VPCFG[(i + t) % 3]), tag="exh_" + name, timeout=3000))
+            jobs.append(dict(cmd=[b, "exh", str(t), str(L), str(i), str(n)], env=_env(VPCFG[(i + t) % 3]), tag="exh_" + name, timeout=900 if quick else 6000))
     wr = core.run_workers(PROP, jobs)
     res.absorb(wr, "exhaustive")
     res.coverage["exhaustive"] = not (wr.failures or wr.crashes)
@@ -81,7 +81,7 @@ def run(tier, seed, res):
     nw = 8 if quick else 16
     per = 500 if quick else 25000
     jobs = [dict(cmd=[b, "rc"], env=_env(dict(VPCFG[i % 4], RC_PARAMS="seed=%d max_success=%d max_size=100" % (seed * 131 + i, per))),
-                 tag="rc", timeout=3000) for i in range(nw)]
+                 tag="rc", timeout=900 if quick else 6000) for i in range(nw)]
     wr = core.run_workers(PROP, jobs)
     res.absorb(wr, "rc")
     _collect(res, wr)
